@@ -62,7 +62,25 @@ def main(d):
         else:
             import pool
             b = pool.build_pool_harness(scratch)
-            scripts = [json.loads(l) for l in script.split("\n") if l.strip()]
+            scripts = [x for x in (json.loads(l) for l in script.split("\n") if l.strip()) if x]
+            if scripts and scripts[0].get("stress"):
+                # a stress round is identified by driver and seed: the driver is run again with that seed
+                kind, sd = scripts[0]["stress"], str(scripts[0].get("seed", 1))
+                test, gates, env = {"rr": ("TestVerifStressRR", False, {"VERIF_N": "12"}),
+                                    "growth": ("TestVerifStressGrowth", True, {"VERIF_N": "60"}),
+                                    "growth/conc": ("TestVerifStressGrowth", True, {"VERIF_N": "60"}),
+                                    "conc": ("TestVerifRacePool", True, {"VERIF_RACE": "1", "VERIF_JITTER": "1", "VERIF_N": "16"})}[kind]
+                b = pool.build_pool_harness(scratch, gates=gates)
+                out = scratch.path("out.ndjson")
+                vlib.run_test_binary(b, test, dict(env, VERIF_OUT=out, VERIF_SEED=sd), timeout=3000)
+                verdict = pool.validate_trace(scratch, out, "replay", par=1)
+                mine = [b_ for b_ in verdict["bad"] if any(c.startswith(pid) for c in b_["ids"])]
+                if mine:
+                    print("VIOLATION property=%s replay=%s" % (pid, d))
+                    print("  reproduced:", mine[0]["ids"], "in round", mine[0]["sid"])
+                    return 1
+                print("not reproduced on the current tree (%s rounds of the %s driver, seed %s)" % (env["VERIF_N"], kind, sd))
+                return 0
             is_conc = bool(scripts) and any(st.get("op") == "conc" for st in scripts[0].get("steps", []))
             if is_conc:
                 import conc
